@@ -103,6 +103,7 @@ func (w *world) serveViews(vs []*view, disc bool) {
 					seenF[key] = true
 					w.t.Line("vf %d %d %s => -", h, f, w.verifyRow(f, w.chain[h]))
 					w.t.Line("gt %d %d %s => -", h, f, w.gtRow(f, w.chain[h]))
+					w.t.Line("vb %d %d %s", h, f, w.vbRow(f, w.chain[h]))
 				}
 				if live(v.id) {
 					data, _ := w.filters[f].NBytes()
